@@ -149,7 +149,14 @@ def judge(part, key_prefix, case, pattern, expected, solver, fixes):
     """One decision: compare with the oracle, record outcome/violation.  Returns observed or None."""
     part.count("evaluations")
     if BRUTE_LIMIT:
-        b = brute_decide(solver, fixes, BRUTE_LIMIT)
+        try:
+            b = brute_decide(solver, fixes, BRUTE_LIMIT)
+        except Exception as e:
+            # the posted program cannot even be evaluated (e.g. a native operator whose operand list contradicts its header)
+            c = dict(case)
+            c["pattern"] = list(pattern)
+            part.violation("%s:posted-program-ill-formed-%s" % (key_prefix, type(e).__name__), c, {"exception": repr(e)[:300]})
+            return None
         if b is not None:
             part.count("solver_free_decisions")
             if b is not expected:
